@@ -249,6 +249,34 @@ func init() {
 	}
 	vx("StrPtrEq", ptrEq)
 	vx("Int64PtrEq", ptrEq)
+	vx("StrPtrVal", func(ex *Exec, fr *Frame, a []Value, s ssa.Instruction) Value {
+		x := a[0].(*PtrV)
+		if x.obj == nil {
+			return ex.tt.Str("")
+		}
+		return ex.load(&PtrV{obj: x.obj, path: x.path})
+	})
+	vx("Int64PtrVal", func(ex *Exec, fr *Frame, a []Value, s ssa.Instruction) Value {
+		x := a[0].(*PtrV)
+		if x.obj == nil {
+			return ex.tt.BV(0, 64)
+		}
+		return ex.load(&PtrV{obj: x.obj, path: x.path})
+	})
+	vx("IsNil", func(ex *Exec, fr *Frame, a []Value, s ssa.Instruction) Value {
+		if iv, ok := a[0].(*IfaceV); ok && iv.typ != nil {
+			return ex.isNilValue(iv.v)
+		}
+		return ex.tt.Bool(true)
+	})
+	vx("Restore", func(ex *Exec, fr *Frame, a []Value, s ssa.Instruction) Value {
+		ex.W.db = ex.W.snaps[ex.concreteInt(a[0], "snapshot")].Clone()
+		return nil
+	})
+	vx("SetDialect", func(ex *Exec, fr *Frame, a []Value, s ssa.Instruction) Value {
+		ex.W.db.dialect = ex.str(a[0], "dialect")
+		return nil
+	})
 	vx("HasPrefix", func(ex *Exec, fr *Frame, a []Value, s ssa.Instruction) Value {
 		return ex.tt.PrefixOf(a[1].(*Term), a[0].(*Term))
 	})
